@@ -201,6 +201,12 @@ func (g *G) extraTmpl(d int) *Node {
 			continue
 		}
 		h := &Node{K: "hole", Q: g.intn(2, "holeStyle")}
+		if g.loopDepth > 0 && g.O.Stmts && g.O.BreakInIf && g.intn(4, "holeJump") == 0 {
+			// a break / continue taken from inside the hole: the template is abandoned with the round
+			h.Kids = append(h.Kids, N("if", g.intExpr(d), Block(N([]string{"break", "continue"}[g.intn(2, "holeJumpKind")])), None()))
+			n.Kids = append(n.Kids, h)
+			continue
+		}
 		switch g.intn(5, "xtHole") {
 		case 0:
 			// GUIDE: {% if … { stat = 'a' } else { stat = 'b' }; stat %}
